@@ -243,6 +243,12 @@ func wkt(wkt string) (*SR, error) {
 	if math.IsNaN(sr.Lat0) {
 		sr.Lat0 = sr.Lat1
 	}
+	if math.IsNaN(sr.Long0) && !math.IsNaN(sr.LongC) {
+		// Conic projections written with "longitude_of_center" (e.g.
+		// Albers_Conic_Equal_Area, Equidistant_Conic) have no separate
+		// central meridian.
+		sr.Long0 = sr.LongC
+	}
 
 	return sr, err
 }
